@@ -188,8 +188,8 @@ def configs(tier, seed):
         for si, shape in enumerate(dag_shapes(N, P, O, E)):
             if tier == "quick" and N == 3 and (si + seed) % 60 != 0:
                 continue
-            if N == 4 and si % 3 != 0:
-                continue
+            if N == 4 and (si + seed) % 9 != 0:
+                continue  # (N=4: a rotating ninth of the shapes per run; every slice is exhaustive in all other dimensions)
             exts, consumed, outs = shape_names(shape)
             if not outs:
                 continue
@@ -461,7 +461,7 @@ def run_shard(shard):
 
 
 def coverage_extra(acc, tier, seed):
-    return {"bounds": {"dag": "N<=3 (quick: N=3 sliced 1/60 by seed), P<=2,O<=2,E<=2" if tier == "quick" else "N<=3 complete, N=4 (P<=2,O<=1,E<=1) 1/3", "depth": 3, "source_menu": SRC_MENU}}
+    return {"bounds": {"dag": "N<=3 (quick: N=3 sliced 1/60 by seed), P<=2,O<=2,E<=2" if tier == "quick" else "N<=3 complete, N=4 (P<=2,O<=1,E<=1) a rotating 1/9 of the shapes (by VERIF_SEED)", "depth": 3, "source_menu": SRC_MENU}}
 
 
 def replay(rep):
